@@ -260,6 +260,9 @@ class ModelOrderEngine(Engine):
                 extra.append(synth_enum(rng, k, pkg))
         if pkg and prop == 'C15' and sw.random() < 0.6:
             extra.append(synth_entity(rng, 0, pkg))
+            if sw.random() < 0.5:
+                # a second entity whose bridges carry the same names and return other constants
+                extra.append(synth_entity(rng, 1, pkg))
         cfg = {'model': name, 'extra': extra, 'plans': [st['sched'].getrandbits(48) for _ in range(sw.choice([2, 2, 3]))],
                'derived': sw.random() < 0.5, 'real_ctor': sw.random() < 0.1, 'globals': True}
         if prop in ('C14', 'C20') and sw.random() < 0.3:
@@ -425,10 +428,17 @@ class ModelOrderEngine(Engine):
                     if not ename.startswith('SYNEE') or got[0] != 'entity':
                         continue
                     wanted = {}
+                    ee_id = None
                     for t in texts:
-                        mm = _re.search(r"INSERT INTO S_BRG\s+VALUES \([^,]+,\s*[^,]+,\s*'(b\d+)',.*?'return (\d+);'", t, _re.S)
+                        mm = _re.search(r"INSERT INTO S_EE\s+VALUES \(([^,]+),\s*[^,]+,\s*[^,]+,\s*'%s'," % ename, t, _re.S)
                         if mm:
-                            wanted[mm.group(1)] = int(mm.group(2))
+                            ee_id = mm.group(1).strip()
+                    for t in texts:
+                        mm = _re.search(r"INSERT INTO S_BRG\s+VALUES \([^,]+,\s*([^,]+),\s*'(b\d+)',.*?'return (\d+);'", t, _re.S)
+                        if mm and mm.group(1).strip() == ee_id:
+                            wanted[mm.group(2)] = int(mm.group(3))
+                    if wanted:
+                        probes['bridge_bodies_found'] = probes.get('bridge_bodies_found', 0) + 1
                     for f, v in got[1]:
                         if f in wanted and v != sqlgen.cv(wanted[f]):
                             raise Violation('bridge-result', 'external entity %s: bridge %s returned %r, its body is '
